@@ -26,7 +26,7 @@ def grid_points(names, seed=0, full=True, P=8):
     <= 2 names: the full product of the base grid (plus one seed-selected auxiliary grid);
     more names: P fixed points whose coordinates run through the grid in different strides
     (every grid value occurs for every variable)."""
-    g = list(G5) + (list(AUX[seed % 3]) if full else [])
+    g = list(G5) + list(AUX[seed % 3])      # the seed only selects which fixed auxiliary grid is appended
     n = len(names)
     if n == 0:
         return {}, 1
